@@ -296,6 +296,9 @@ def race_execution(prefix, root, nproc, chunks, initial=None):
     saved = (hm.Path, hm.os)
     hm.Path = vfs.make_path_class(fs)
     hm.os = vfs.RaceOS(fs, c)
+    had_glob = getattr(hm, "glob", None)
+    if had_glob is not None:
+        hm.glob = vfs.RaceGlob(fs)
     drive.reset_process_state()
     results = {}
 
@@ -309,6 +312,8 @@ def race_execution(prefix, root, nproc, chunks, initial=None):
         c.run()
     finally:
         hm.Path, hm.os = saved
+        if had_glob is not None:
+            hm.glob = had_glob
     _LAST_FS["files"] = dict(fs.files)
     final = {}
     for name, content in fs.files.items():
